@@ -239,6 +239,45 @@ Theorem C14_external_name_repaired :
 Proof. exact external_entry_meets_ideal. Qed.
 Print Assumptions C14_external_name_repaired.
 
+(* ---------------- resource level: several backends in one resource ---------------- *)
+
+(* createIngressEx keeps ONE variable  endps  for all backends of the Ingress (default backend,
+   then the paths of every rule).  [ingress_loop] carries that variable; every path through the
+   body assigns it, so whatever it held before and in whatever order the backends come -- a
+   Service missing, without ready endpoints, ExternalName, in cluster-IP mode -- every backend
+   gets exactly its own single-backend entry: a missing Service yields the empty entry (the error
+   placeholder by C14_empty_is_error_backend), never the pods of the backend before it. *)
+Theorem C14_ingress_no_leak :
+  forall fx plus c ns bs e0, (forall b, In b bs -> b_kind b = KIng) ->
+    ingress_loop fx plus c ns e0 bs = map (endpoints_entry fx plus c ns) bs.
+Proof. exact ingress_no_leak. Qed.
+Print Assumptions C14_ingress_no_leak.
+
+(* createVirtualServerEx writes one Endpoints map for the upstreams of the VirtualServer and of
+   all its VirtualServerRoutes, keyed by (namespace of the OWNER, service, subselector, port);
+   the generators and createUpstreamsForPlus read it with the owner's namespace.  Every upstream,
+   in whichever namespace its VirtualServerRoute lives, reads its own resolution in its own
+   namespace -- never that of a same-named Service of the VirtualServer's namespace. *)
+Theorem C14_vs_no_leak :
+  forall fx plus c ups,
+    (forall u, In u ups -> vs_upstream (snd u)) ->
+    (forall u u', In u ups -> In u' ups -> key_of (fst u) (snd u) = key_of (fst u') (snd u') ->
+                  b_clusterip (snd u) = b_clusterip (snd u')) ->
+    forall u, In u ups ->
+      vs_entry_of fx plus c ups (fst u) (snd u) = endpoints_entry fx plus c (fst u) (snd u).
+Proof. exact vs_no_leak. Qed.
+Print Assumptions C14_vs_no_leak.
+
+(* The NGINX Plus API write of an endpoints-only update (UpdateServersInPlus /
+   UpdateStreamServersInPlus) carries, for a service that is not ExternalName, exactly the
+   servers of the file; NGINX OSS pushes nothing. *)
+Theorem C14_push_is_file :
+  forall plus resolver k entry l,
+    pushed plus k entry = Some l -> snd entry = false ->
+    plus = true /\ l = fst entry /\ rendered plus resolver k entry = l.
+Proof. exact pushed_is_file. Qed.
+Print Assumptions C14_push_is_file.
+
 (* ---------------- what the code does NOT satisfy (each reproduced on the real code by the
    corpus cases of the harness) ---------------- *)
 
